@@ -293,6 +293,7 @@ impl PartialEq for Value {
                 av == bv && asep == bsep && ab == bb
             }
             (Self::Map(a), Self::Map(b)) => a == b,
+            (Self::ArgList(a), Self::ArgList(b)) => a == b,
             (Self::UnaryOp(a, av), Self::UnaryOp(b, bv)) => {
                 a == b && av == bv
             }
